@@ -104,6 +104,51 @@ func VerifC14_IsAggregator() {
 	vnd.Cover("C14.isaggregator.checked")
 }
 
+// VerifC14_IsAggregatorValues: the same rule on concrete slot signatures (any 2 - thorough: 3 - out of a catalogue
+// of three, in any order, repeats allowed) and committee sizes (modulo 1, 2 and 4 with the target of
+// 16, larger with the target of 1): the hashes are then the real SHA-256 values, computed natively
+// inside the encoding, so that a selection that depends on anything but that validator's own
+// signature (its position in the call, the signatures before it) gives a counterexample that
+// replays as it stands.
+func VerifC14_IsAggregatorValues() { c14IsAggregatorValues(2) }
+
+// VerifC14_IsAggregatorValues3: three validators in the slot (thorough).
+func VerifC14_IsAggregatorValues3() { c14IsAggregatorValues(3) }
+
+func c14IsAggregatorValues(n int) {
+	targets := []uint64{1, 16}
+	signer := &c14SlotSigner{}
+	s := c14New(&vstub.ChainTime{SPE: 32, SlotNs: 1 << 33}, targets[vnd.Choose("target", len(targets))], &c14Accounts{}, &c14AggProvider{}, &c14AggSubmitter{}, signer, &c14APSigner{})
+	accounts := make([]e2wtypes.Account, n)
+	sizes := make([]uint64, n)
+	for i := 0; i < n; i++ {
+		accounts[i] = &vstub.Account{VIndex: uint64(i)}
+		sizes[i] = []uint64{16, 32, 64}[vnd.Choose("committee.size", 3)]
+		var sig phase0.BLSSignature
+		fill := []byte{0x11, 0x5a, 0xc3}[vnd.Choose("slotsig", 3)]
+		for k := range sig {
+			sig[k] = fill + byte(k)
+		}
+		signer.sigs = append(signer.sigs, sig)
+	}
+	sigs, aggs, err := s.AggregatorsAndSignatures(context.Background(), accounts, 77, sizes)
+	vnd.Assert(err == nil && len(sigs) == n && len(aggs) == n, "C14.isaggregator-values.answered")
+	for i := 0; i < n; i++ {
+		modulo := sizes[i] / s.targetAggregatorsPerCommittee
+		if modulo == 0 {
+			modulo = 1
+		}
+		h := sha256.Sum256(signer.sigs[i][:])
+		want := binary.LittleEndian.Uint64(h[:8])%modulo == 0
+		vnd.Assert(aggs[i] == want, "C14.isaggregator-values.spec-selection-rule")
+		if want {
+			vnd.Cover("C14.isaggregator-values.selected")
+		} else {
+			vnd.Cover("C14.isaggregator-values.not-selected")
+		}
+	}
+}
+
 type c14AggProvider struct {
 	fail  bool
 	agg   *phase0.Attestation
